@@ -201,6 +201,12 @@ fn nf(n: &SyntaxNode, ctx: Ctx, parent: Option<K>, out: &mut String) {
                         items.pop();
                     }
                 }
+                if ch.kind() == K::Label && items.len() >= 2 && items[items.len() - 1].kind() == K::Space && is_block_level(items[items.len() - 2].kind()) {
+                    // a label attaches to the element before it; a blank between a heading (or
+                    // another block-level element, which ends at the line end anyway) and the
+                    // label is not content
+                    items.pop();
+                }
                 if ch.kind() == K::Parbreak {
                     if let Some(last) = items.last() {
                         if last.kind() == K::Space {
